@@ -85,8 +85,10 @@ func normalizeSymbolicLinkAndEnsurePortable(path, target string) (string, error)
 	// dereferencing the symbolic link removes one element of path depth.
 	pathDepth := strings.Count(path, "/")
 	for _, component := range strings.Split(target, "/") {
-		// Update the depth.
-		if component == "." {
+		// Update the depth. Empty components (which result from leading,
+		// trailing, or repeated slashes) are ignored in path resolution and
+		// thus, like ".", don't change the depth.
+		if component == "." || component == "" {
 			// No change to depth.
 		} else if component == ".." {
 			pathDepth--
